@@ -2,9 +2,9 @@ from propdefs.common import *
 
 PROP = {
     "bin": "c10",
-    "coq_targets": ["theories/SSA/C10Check"],
+    "coq_targets": ["theories/SSA/C10Check", "theories/SSA/SsaSmall"],
     "n": {"quick": 480, "thorough": 12000},
-    "theorems": ["ssa_check_sound", "check_typing_sound", "ssa_step_sim"],
+    "theorems": ["ssa_check_sound", "check_typing_sound", "ssa_step_sim", "ssa_operands_agree", "ssa_model_passes_small"],
     "rule": "random IL functions, one xoshiro256** stream per (seed,index): fixed skeletons (diamond whose join branches on guards, nested "
             "diamonds inside a loop, loop through the entry, self-loops, three-way fans) 5/12 and random CFGs of 1-8 blocks with back edges, "
             "self-loops and (1/3) blocks unreachable from the entry 7/12; 0-3 instructions per block (assign 68%, load 10%, store 10%, nop 5%, "
